@@ -1,4 +1,4 @@
-use crate::{constraints::props::{Propagate, Prune}, variables::{VarId, Val}, variables::views::{Context, View}};
+use crate::{constraints::props::{Propagate, Prune}, variables::VarId, variables::views::{Context, View}};
 
 /// Global maximum constraint: `result = max(vars...)`.
 /// This constraint enforces that the result variable equals the maximum value among all input variables.
@@ -125,20 +125,10 @@ impl Prune for Max {
                 
                 // The result can't be smaller than this variable's minimum
                 // (since it's the only one that can be maximum)
-                let new_result_min = if var_min > prev_max { var_min } else { 
-                    // Take the maximum of var_min and (prev_max + 1) if applicable
-                    match (var_min, prev_max) {
-                        (Val::ValI(min_i), Val::ValI(prev_i)) => {
-                            Val::ValI(if min_i > prev_i + 1 { min_i } else { prev_i + 1 })
-                        },
-                        (Val::ValF(min_f), Val::ValF(prev_f)) => {
-                            // For floats, we can use a very small epsilon
-                            let epsilon = f64::EPSILON;
-                            Val::ValF(if min_f > prev_f + epsilon { min_f } else { prev_f + epsilon })
-                        },
-                        _ => var_min, // Mixed types - keep current min
-                    }
-                };
+                // Nothing tighter is implied: the other variables may still be the
+                // maximum for smaller values of the result, so `prev_max` gives no bound.
+                let _ = prev_max;
+                let new_result_min = var_min;
                 
                 let _min = self.result.try_set_min(new_result_min, ctx)?;
             }
